@@ -85,6 +85,41 @@ pub fn frag_len(rng: &mut Rng, leftover: usize, big: bool) -> usize {
     }
 }
 
+/// Op::arg >= FORCED: a block SOLVED at execution time so that the accumulator takes a chosen extreme value right after
+/// it (model::poly1305::forced_target(arg - FORCED)); the piece is [bytes completing the pending block] ||
+/// [optional filler block] || solved block || 0xff bytes up to `len`. A pure function of (key, bytes fed so far, op).
+pub const FORCED: u64 = 1000;
+
+fn forced_bytes(key: &[u8; 32], log: &[u8], op: &Op) -> Option<Vec<u8>> {
+    use crate::model::poly1305::{accumulator_after, forced_target, solve_block};
+    let target = forced_target(op.arg - FORCED);
+    let mut piece: Vec<u8> = Vec::new();
+    let lo = log.len() % 16;
+    if lo != 0 {
+        piece.extend_from_slice(&data(op.seed ^ 0x11, 16 - lo));
+    }
+    let mut base = log.to_vec();
+    base.extend_from_slice(&piece);
+    for k in 0..12u64 {
+        let mut cand = base.clone();
+        let mut extra: Vec<u8> = Vec::new();
+        if k > 0 {
+            extra = data(op.seed.wrapping_add(k) | 16, 16);
+            cand.extend_from_slice(&extra);
+        }
+        let acc = accumulator_after(key, &cand);
+        if let Some(m) = solve_block(key, &acc, &target) {
+            piece.extend_from_slice(&extra);
+            piece.extend_from_slice(&m);
+            let want = (op.len as usize).min(256).max(16);
+            let tail = want - 16;
+            piece.extend(std::iter::repeat(0xffu8).take(tail));
+            return Some(piece);
+        }
+    }
+    None
+}
+
 fn frag_bytes(op: &Op) -> Vec<u8> {
     let len = (op.len as usize).min(8192);
     if op.arg >= 1 && op.arg as usize <= CRAFTED.len() {
@@ -184,6 +219,7 @@ impl Scenario for PolySplit {
         t.set_p("key_class", rng.below(12)); // 8..11 = random too
         t.set_p("key_seed", rng.data_seed());
         let crafted_bias = rng.chance(1, 3);
+        let forced_bias = rng.chance(1, 8);
         let big = tier == Tier::Thorough || rng.chance(1, 10);
         let max_handles = rng.range(1, 3) as usize;
         let nops = rng.range(1, 16);
@@ -206,14 +242,17 @@ impl Scenario for PolySplit {
                 left[h] = None;
             } else {
                 let lo = left[h].unwrap();
-                let (len, arg, seed) = if crafted_bias && rng.chance(1, 2) {
+                let (len, arg, seed) = if forced_bias && rng.chance(1, 3) {
+                    // a solved block (possibly followed by one or two 0xff blocks in the same call)
+                    (16 * rng.range(1, 3) as usize, FORCED + rng.below(16 * 130), rng.data_seed())
+                } else if crafted_bias && rng.chance(1, 2) {
                     (16 * rng.range(1, 3) as usize, rng.range(1, CRAFTED.len() as u64), 0)
                 } else {
                     let seed = match rng.below(6) { 0 => 0, 1 => 1, _ => rng.data_seed() };
                     (frag_len(rng, lo, big), 0, seed)
                 };
                 t.ops.push(Op::new(h as u8, K_INPUT).len(len).arg(arg).seed(seed).off(rng.below(32) as u8));
-                left[h] = Some((lo + len) % 16);
+                left[h] = Some(if arg >= FORCED { 0 } else { (lo + len) % 16 });
             }
         }
         t
@@ -233,11 +272,24 @@ impl Scenario for PolySplit {
             match op.k {
                 K_INPUT => {
                     let hd = hs[h].as_mut().unwrap();
-                    let d = frag_bytes(op);
+                    let d = if op.arg >= FORCED {
+                        match forced_bytes(&key, &hd.log, op) {
+                            Some(d) => {
+                                obs.hit("fault.block_solved_to_force_an_extreme_accumulator");
+                                d
+                            }
+                            None => {
+                                obs.hit("skipped.no_solvable_block_for_this_target");
+                                continue;
+                            }
+                        }
+                    } else {
+                        frag_bytes(op)
+                    };
                     let lo = hd.log.len() % 16;
                     let loc = match lo { 0 => 0, 1 => 1, 15 => 2, _ => 3 };
                     obs.cov(((class.min(15) as u32) << 8) | (loc << 4) | crate::scn::hashctx::chunk_class(d.len(), lo, 16));
-                    if op.arg != 0 {
+                    if op.arg != 0 && op.arg < FORCED {
                         obs.hit("fault.crafted_wraparound_block");
                     }
                     if d.is_empty() {
